@@ -1,3 +1,5 @@
+import os
+from pyvc import static_checks
 # Contracts for odxtools/exceptions.py (property C17) and the reads-frame obligation for the strict_mode flag
 import ast
 import warnings
@@ -100,7 +102,7 @@ def strict_mode_reads_frame(tier):
     exceptions.py is an attribute access <module>.strict_mode evaluated inside a function body (call time)."""
     out = []
     for path in repo_py_files():
-        rel = path.replace("/repo/", "")
+        rel = os.path.relpath(path, static_checks.REPO)
         if rel == "odxtools/exceptions.py":
             continue
         tree = ast.parse(open(path).read())
